@@ -90,11 +90,16 @@ def map_job(job):
             for b in range(4):
                 Jm[a, b] = Jstd[perm[a], perm[b]]
         mask_ok = True
-        if via == "system":
+        if via in ("system", "system-setmethod"):
             sysm = de.OdeSystem(rhsf, np.array([0.3, -0.2, 0.1, 0.4])[perm].astype(dt), t=(0.0, 1.0), dt=abs(h), rtol=tol, atol=tol)
-            sysm.method = cls
-            if mask is not None:
-                sysm.set_kick_vars(mask)
+            if via == "system-setmethod" and mask is not None:
+                # another splitting method (with its default mask) is in place when the method is selected together with the mask
+                sysm.method = de.integrators.available_methods(False)["Symplectic Forward Euler"]
+                sysm.set_method(cls, staggered_mask=mask)
+            else:
+                sysm.method = cls
+                if mask is not None:
+                    sysm.set_kick_vars(mask)
             integ = sysm.integrator
             rhs = sysm.equ_rhs
             if split and mask is not None:
@@ -247,7 +252,7 @@ def check(run, replay=None):
             for h in hs:
                 layouts = [("default", "direct"), ("default", "system")]
                 if n in SPLIT:
-                    layouts += [("interleaved", "system"), ("interleaved", "direct")]
+                    layouts += [("interleaved", "system"), ("interleaved", "direct"), ("interleaved", "system-setmethod")]
                 for layout, via in layouts:
                     jobs.append((n, ham, h, layout, via))
     ejobs = []
